@@ -1,6 +1,7 @@
 """Helper for C19 (not a property module): cross-check `Mjw.PairFilter.proto` (Model/PairFilter.lean) against the
 real `mujoco_warp.put_model` on random MJCF models (random trees, welded bodies, random contype/conaffinity - 2-bit
-masks and, in rotation, 32-bit masks with bit 31 set (-1, -2147483648, mixed) - excludes, explicit pairs incl. duplicated, reversed and degenerate self pairs, filterparent on/off).
+masks and, in rotation, 32-bit masks with bit 31 set (-1, -2147483648, mixed) - excludes, explicit pairs incl. duplicated, reversed and degenerate self pairs, filterparent on/off;
+3 of every 8 cases are forced chains with jointless (welded) bodies below jointed ones, see WELD_PATTERNS).
 
   python -m harness.props._c19_crosscheck [seed] [ncases]
 
@@ -40,9 +41,28 @@ def draw_mask(rng, mode):
   return rng.randint(0, 3)
 
 
-def gen(rng, masks="small", tight=False):
+# joint patterns of the forced welded chains (gen(..., weld=k) uses pattern k mod len): character i is the body at depth i+1 of a
+# chain hanging from the world, j = hinge joint, n = no joint (the body is welded into its parent, body_weldid != body id).
+# The parent/child filter works on WELD bodies: the patterns put geoms on jointless bodies at depth >= 3 (weld body != own body,
+# parent of the weld body != parent of the own body), on runs of jointless bodies, on jointed children of jointless bodies (the
+# parent of the weld body is itself welded, so weldid[parent[weld]] != parent[weld]) and on bodies welded to the world
+WELD_PATTERNS = ("jjn", "jjnn", "jnj", "jjnjn", "jjnj", "jnnj", "njjn", "jjjn", "jnjn")
+
+
+def permissive_mask(rng, mode):
+  """a contype/conaffinity value of the mode that has a non-zero AND with every other permissive value of that mode"""
+  if mode == "bit31":
+    return -1
+  if mode == "mixed":
+    return rng.choice((1, 3, -1))
+  return rng.choice((1, 3))
+
+
+def gen(rng, masks="small", tight=False, weld=None):
   """masks: see draw_mask.  tight: all geoms of the model overlap (body offsets and geom offsets are small against the radius),
-  so that every pair that survives the filter has a contact in MuJoCo"""
+  so that every pair that survives the filter has a contact in MuJoCo.  weld=k (an int): forced welded chain, see gen_weld"""
+  if weld is not None:
+    return gen_weld(rng, masks, tight, weld)
   nb = rng.randint(1, 6)
   # half of the models are (mostly) chains with a geom on every body: the parent/child filter rules depend on jointless bodies
   # welded into a jointed ancestor two or more levels below the world, which random shallow trees rarely contain
@@ -90,6 +110,64 @@ def gen(rng, masks="small", tight=False):
   return f'<mujoco><option><flag filterparent="{fp}"/></option><worldbody>{w}</worldbody><contact>{contact}</contact></mujoco>'
 
 
+def gen_weld(rng, masks, tight, k):
+  """forced case of the parent/child filter through welded bodies: a chain world - b1 - b2 - ... with the joint pattern
+  WELD_PATTERNS[k % len], 1-2 geoms on every chain body, 0-2 further bodies attached anywhere, masks mostly permissive (so that
+  the body filters and not the masks decide), at most one explicit pair (sometimes duplicated) / exclude, filterparent on except every 5th k"""
+  pat = WELD_PATTERNS[k % len(WELD_PATTERNS)]
+  nc = len(pat)
+  nb = nc + rng.randint(0, 2)
+  parents = [None] + [(b - 1 if b <= nc else rng.randint(0, b - 1)) for b in range(1, nb + 1)]
+  jointed = [None] + [(pat[b - 1] == "j" if b <= nc else rng.random() < 0.6) for b in range(1, nb + 1)]
+  children = {i: [] for i in range(nb + 1)}
+  for b in range(1, nb + 1):
+    children[parents[b]].append(b)
+  gcount = [0]
+
+  def geoms(lo):
+    s = ""
+    for _ in range(rng.randint(lo, 2 if lo else 1)):
+      ct, ca = [(permissive_mask(rng, masks) if rng.random() < 0.75 else draw_mask(rng, masks)) for _ in range(2)]
+      s += f'<geom name="g{gcount[0]}" size="0.1" pos="{rng.random() * (0.05 if tight else 1.0)} 0 0" contype="{ct}" conaffinity="{ca}"/>'
+      gcount[0] += 1
+    return s
+
+  def body(b):
+    s = f'<body name="b{b}" pos="0 0 {0.004 * b if tight else b}">'
+    if jointed[b]:
+      s += '<joint type="hinge"/>'
+    s += '<inertial pos="0 0 0" mass="1" diaginertia="1 1 1"/>' + geoms(1)
+    for c in children[b]:
+      s += body(c)
+    return s + "</body>"
+
+  w = geoms(0)
+  for c in children[0]:
+    w += body(c)
+  ng, contact = gcount[0], ""
+  if rng.random() < 0.4:
+    a, b = rng.sample(range(ng), 2)
+    contact += f'<pair geom1="g{a}" geom2="g{b}"/>'
+    if rng.random() < 0.3:   # the same two geoms again (every other time reversed): duplicated pair
+      a, b = (a, b) if rng.random() < 0.5 else (b, a)
+      contact += f'<pair geom1="g{a}" geom2="g{b}" margin="0.01"/>'
+  if rng.random() < 0.4:
+    a, b = rng.sample(range(1, nb + 1), 2)
+    contact += f'<exclude body1="b{a}" body2="b{b}"/>'
+  fp = "disable" if k % 5 == 4 else "enable"
+  return f'<mujoco><option><flag filterparent="{fp}"/></option><worldbody>{w}</worldbody><contact>{contact}</contact></mujoco>'
+
+
+def weld_rotation(c):
+  """which cases of a run are forced welded chains (3 of every 8, all of them with all geoms overlapping; they cover the bit-31
+  and the mixed mask mode): the pattern index for case c, or None"""
+  if c % 4 == 3:
+    return c // 4 * 2
+  if c % 8 == 1:
+    return c // 8 * 2 + 1
+  return None
+
+
 def line_of(mjm):
   import mujoco
   fp = 0 if (mjm.opt.disableflags & mujoco.mjtDisableBit.mjDSBL_FILTERPARENT) else 1
@@ -113,7 +191,7 @@ def run(seed=0, ncases=100):
   ok, bad, nself = 0, [], 0
   try:
     for c in range(ncases):
-      xml = gen(rng, MASK_MODES[c % 4], c % 2 == 1)
+      xml = gen(rng, MASK_MODES[c % 4], c % 2 == 1, weld_rotation(c))
       try:
         mjm = mujoco.MjModel.from_xml_string(xml)
       except Exception:
